@@ -78,6 +78,7 @@ class StereographicProjection:
         where :math:`p` is either 1 (north pole as projection point) or
         -1 (south pole as projection point).
         """
+        v = v.unit
         v = v[v <= self.region]
         return _vector2xy(v, pole=self.pole)
 
@@ -154,6 +155,7 @@ class StereographicProjection:
         --------
         vector2xy
         """
+        v = v.unit
         x_upper, y_upper = _vector2xy(v[v <= _UPPER_HEMISPHERE], pole=-1)
         x_lower, y_lower = _vector2xy(v[v <= _LOWER_HEMISPHERE], pole=1)
         return x_upper, y_upper, x_lower, y_lower
